@@ -512,11 +512,27 @@ func genC05(r *Rng, e *Emitter, n int) {
 			t.repeatMembers(r) // the same geometry object in several places of one collection
 			shared = true
 		}
+		// sometimes every ordinate is a whole number (of any magnitude): then a limit on the decimal
+		// digits written changes no value and the text must be the same
+		whole := r.chance(1, 6)
+		digits := r.Intn(16)
+		if whole {
+			scale := math.Ldexp(1, []int{0, 0, 10, 60, 200, 700, 990}[r.Intn(7)])
+			t.eachCoord(func(c geom.Coord) {
+				for k := range c {
+					if v := math.Trunc(c[k]) * scale; !math.IsInf(v, 0) {
+						c[k] = v
+					} else {
+						c[k] = math.Trunc(c[k])
+					}
+				}
+			})
+		}
 		if r.chance(1, 2) {
 			in := t.sx()
 			e.pending("C05.enc", in)
 			var text string
-			usePersist := r.chance(1, 2)
+			usePersist := r.chance(1, 2) && !whole
 			mk := t.build
 			if shared {
 				mk = func() geom.T { return t.buildShared(map[string]geom.T{}) }
@@ -533,6 +549,8 @@ func genC05(r *Rng, e *Emitter, n int) {
 				var err error
 				if usePersist {
 					s, err = c05Encoder.Encode(mk()) // one Encoder value reused for the whole run
+				} else if whole {
+					s, err = wkt.Marshal(mk(), wkt.EncodeOptionWithMaxDecimalDigits(digits))
 				} else {
 					s, err = wkt.Marshal(mk())
 				}
